@@ -19,7 +19,7 @@ RVS = [("A", "1/0/1", "init"), ("B", "1/0/2", "expire 1"), ("C", "1/0/3", "every
 INTERVAL = 60.0
 READ_TIMEOUT = 2.0
 SLACK = 4.5  # three values share two read slots; a read lasts at most READ_TIMEOUT
-EVENTS = ["CONNECT", "DISCONNECT", "tg:A", "tg:B", "tg:C", "answer-all", "unreg:B", "reg:B", "hold-send", "release", "+0.5", "+2", "+30", "+58", "+60"]
+EVENTS = ["CONNECT", "DISCONNECT", "tg:A", "tg:B", "tg:C", "answer-all", "unreg:B", "reg:B", "hold-send", "release", "+0.5", "+2", "+30", "+58", "+60", "RESTART"]
 HORIZON = 135.0
 
 
@@ -47,12 +47,13 @@ def run_case(seq: tuple[int, ...]) -> list[tuple[str, str]]:
 
         xknx.telegrams.put_nowait = put  # type: ignore[method-assign]
         holds: list[asyncio.Future[None]] = []
+        hold_enabled = [True]
         iface = w.iface
         orig_send = iface.send_cemi
 
         async def send_cemi(cemi: Any) -> None:
             tg = cemi.data.telegram()
-            if tg.destination_address == GroupAddress("9/7/9"):
+            if tg.destination_address == GroupAddress("9/7/9") and hold_enabled[0]:
                 fut: asyncio.Future[None] = loop.create_future()
                 holds.append(fut)
                 await fut
@@ -122,6 +123,31 @@ def run_case(seq: tuple[int, ...]) -> list[tuple[str, str]]:
                     for f in holds:
                         if not f.done():
                             f.set_result(None)
+                elif ev == "RESTART":
+                    # XKNX.stop() followed by XKNX.start() on the same object: the interface goes down first (a real one reports
+                    # DISCONNECTED when it is stopped); for the reference this is a disconnection - what comes back after the
+                    # next CONNECT must be what a fresh start gives
+                    hold_enabled[0] = False   # stop() joins the queue: held telegrams (and any still queued behind them) go out
+                    for f in holds:
+                        if not f.done():
+                            f.set_result(None)
+                    if connected:
+                        log.append((loop.time(), "disconnect", ""))
+                    connected = False
+                    w.disconnect()
+
+                    async def restart() -> None:
+                        await xknx.stop()
+                        await xknx.start()
+
+                    rt = w.spawn(restart(), name="harness-restart")
+                    loop.settle()
+                    if not rt.done():
+                        w.run(0.001)
+                    if not rt.done():
+                        viols.append(("restart-never-returns", f"stop()+start() still pending; trace={trace}"))
+                        break
+                    hold_enabled[0] = True
                 else:
                     w.run(float(ev))
             except Exception as exc:  # noqa: BLE001
